@@ -295,6 +295,10 @@ class BaseKFACPreconditioner:
             compute_inverses = False  # Cannot be computed if no layers
         if compute_inverses:
             for name, layer in self._layers.values():
+                # State saved before the first factor update has no factors
+                # so there is nothing to compute inverses from yet
+                if layer.a_factor is None or layer.g_factor is None:
+                    continue
                 layer.compute_a_inv(damping=self.damping)
                 layer.compute_g_inv(damping=self.damping)
                 if self._assignment.broadcast_inverses():
